@@ -75,8 +75,9 @@ def points_for(rng, kind, n):
     out = []
     for _ in range(n):
         if kind in ("subducting plate",):
-            d = rng.uniform(20e3, 200e3)
-            out.append(([rng.uniform(-300e3, 300e3), d + rng.uniform(10e3, 100e3), 1000e3 - d], d))
+            # the slab dips at 45 degrees towards +y from the trench y = 0: its top is at depth y, its body below it (depth > y); 10-100 km below the top, measured vertically
+            d = rng.uniform(120e3, 270e3)
+            out.append(([rng.uniform(-300e3, 300e3), d - rng.uniform(10e3, 100e3), 1000e3 - d], d))
         elif kind == "fault":
             d = rng.uniform(10e3, 300e3)
             out.append(([rng.uniform(-300e3, 300e3), rng.uniform(-50e3, 50e3), 1000e3 - d], d))
